@@ -77,6 +77,44 @@ def gen_mpf_case(rng):
     return " ".join(toks)
 
 
+def gen_dcase(rng, feasible=True):
+    n = rng.rint(0, 6)
+    lvu = rng.rint(0, 1)
+    df = rng.choice([F(0), F(0), F(0), F(1, 1000), F(1, 4)])
+    toks = [str(lvu), "0", tokq(df)]
+    cols = []
+    for _ in range(n):
+        zA = rng.choice([rng.small_rat(5), rng.small_rat(5), F(0), F(rng.rint(-3, 3)), F(rng.rint(-20, 20), 10)])
+        vs = rng.choice([2, 3, 3, 4])
+        mag = abs(rng.small_rat(6)) * rng.choice([0, 1, 1, 1])
+        dz = mag if vs == 3 else (-mag if vs == 2 else F(0))
+        if not feasible and rng.chance(0.4):
+            dz = rng.small_rat(4)
+        cols.append((zA, dz, rng.small_rat(4), vs, 1 if rng.chance(0.15) else 0))
+    if cols and rng.chance(0.3):
+        zA, dz, cz, vs, sk = rng.choice(cols)
+        cols.append((zA * 2, dz, cz, vs, sk) if rng.chance(0.5) else (zA, dz, cz, vs, sk))
+    toks.append(str(len(cols)))
+    for zA, dz, cz, vs, sk in cols:
+        toks += [tokq(zA), tokq(dz), tokq(cz), str(vs), str(sk)]
+    return " ".join(toks)
+
+
+def gen_mpf_dcase(rng):
+    n = rng.rint(1, 5)
+    e = rng.choice([18, 20, 21, 25, 30])
+    prec = rng.choice([128, 192, 288, 432, 648, 972])
+    df = F(1, 2 ** (prec - 33))
+    lvu = rng.rint(0, 1)
+    toks = [str(prec), str(lvu), "0", tokq(df), str(n)]
+    for _ in range(n):
+        zA = F(rng.rint(1, 60), rng.choice([1, 5, 10, 3, 7])) * rng.choice([1, -1])
+        vs = rng.choice([2, 3])
+        mag = F(rng.rint(1, 5000), rng.choice([1, 1, 7, 3])) * F(10) ** e
+        toks += [tokq(zA), tokq(mag if vs == 3 else -mag), "0", str(vs), "0"]
+    return " ".join(toks)
+
+
 def run(ev, rep, rng, exe, model, quick):
     """queues model questions on `model` (caller runs it) and returns a closure that compares afterwards"""
     r1 = rng.fork("ratio-exact")
@@ -89,6 +127,12 @@ def run(ev, rep, rng, exe, model, quick):
     body = FIXED_MPF[0].split(" ", 1)[1]
     mpf += ["%d %s" % (p, body.replace("1/37778931862957161709568", "1/%d" % 2 ** (p - 33), 1)) for p in (192, 288, 432, 648, 972, 1458)]
     mpf_ops = ["ratiop2f " + c for c in mpf]
+    r3 = rng.fork("ratio-dual")
+    dcases = list(dict.fromkeys(gen_dcase(r3, feasible=(k % 4 != 3)) for k in range(1500 if quick else 30000)))
+    dks = [model.ask("ratiod2 " + c) for c in dcases]
+    r4 = rng.fork("ratio-dual-mpf")
+    mpf_ops += ["ratiod2f " + gen_mpf_dcase(r4) for _ in range(600 if quick else 12000)]
+    td = proto.run_harness(exe, ["ratiod2 " + c for c in dcases], timeout=900)
     tr = proto.run_harness(exe, ["ratiop2 " + c for c in cases], timeout=900)
     tf = proto.run_harness(exe, mpf_ops, timeout=900)
 
@@ -111,6 +155,22 @@ def run(ev, rep, rng, exe, model, quick):
                 break
         for k, v in sorted(stats.items()):
             ev.stat("ratio-exact:stat%s" % k, v)
+        if td.crashed:
+            rep.violation("harness died in the dual ratio-test battery: " + td.crashed[-300:], {"stderr": td.stderr[-1500:]},
+                          signature={"symptom": "crash", "where": "ratiod2"})
+        dstats = {}
+        for c, k, (op, blk) in zip(dcases, dks, td):
+            got, want = proto.get(blk, "res"), proto.get(model.ans(k), "res")
+            ev.cov["traces_validated_against_impl"] += 1
+            ev.count("ratiod|" + c, nontrivial=len(c.split()) > 4)
+            if got:
+                dstats[got[0]] = dstats.get(got[0], 0) + 1
+            if got != want:
+                rep.violation("ILLratio_dII_test differs from Qsx.Ratio.dII: C %s, model %s" % (got, want),
+                              {"lines": ["ratiod2 " + c], "c": got, "model": want}, signature={"symptom": "ratio-model-differs", "test": "dII"})
+                break
+        for k, v in sorted(dstats.items()):
+            ev.stat("ratio-dual-exact:stat%s" % k, v)
         if tf.crashed:
             rep.violation("harness died in the mpf ratio-test battery: " + tf.crashed[-300:], {"stderr": tf.stderr[-1500:]},
                           signature={"symptom": "crash", "where": "ratiop2f"})
@@ -120,8 +180,9 @@ def run(ev, rep, rng, exe, model, quick):
             ev.cov["traces_validated_against_impl"] += 1
             nf += 1
             if got and got[0] == "4":
-                rep.violation("mpf_ILLratio_pII_test ends RATIO_FAILED although a row blocks the step (theorem ratio_pII_never_failed: "
-                              "unreachable in any arithmetic)", {"lines": [op]}, signature={"symptom": "ratio-failed-mpf"})
+                rep.violation("%s ends RATIO_FAILED although a row blocks the step (theorems ratio_pII_never_failed / ratio_dII_never_failed: "
+                              "unreachable in any arithmetic)" % ("mpf_ILLratio_dII_test" if op.startswith("ratiod2f") else "mpf_ILLratio_pII_test"),
+                              {"lines": [op]}, signature={"symptom": "ratio-failed-mpf"})
                 break
         ev.stat("ratio-mpf:cases", nf)
     return compare
